@@ -2,23 +2,31 @@
 LEVEL = 'model_checking'
 LIMITS = {'max_unsupported': 0, 'max_undecided_frac': 0.05}
 OUTSIDE = ['the floating-point branch (pretty_dtoa / ryu: table-driven 128-bit arithmetic on symbolic bits is not executable symbolically), significant-digit rounding, e-notation, inf / NaN keywords',
-           'integers at or above the stated magnitude bound (digit extraction divides by constants; the solver decides it for the stated bound, larger bounds time out) — the property claims all integers below 2^53']
+           'integers outside the stated range and windows (digit extraction divides by constants; the solver decides it for the stated bound, larger bounds time out) — the property claims all integers below 2^53']
 ASSUMPTIONS = ['x ranges over all integer-valued doubles below the bound (both signs, zero, negative zero)', 'separator / threshold settings are concrete per case']
 
 def bounds(tier):
-    return {'settings': 'separator in {"_", ",", none} x grouping threshold in {1, 4, 6, 12}', 'values': 'all integer-valued doubles with |x| < 10^5 (quick) / 10^7 (thorough)'}
+    return {'settings': 'separator in {"_", ",", none} x grouping threshold in {1, 4, 6, 12}', 'values': 'all integer-valued doubles with |x| < 10^5 (quick) / 10^7 (thorough); plus windows |x - c| < 20000 (thorough: 200000) around c = +-2^31, 2^32, 2^53, 10^6, 10^9, 10^12, -10^15 and seeded centres below 2^53 (thorough: every +-10^k, k = 6..15)'}
 
 def exhaustive(tier): return False
 
 def _inputs(rnd, case):
     import struct as st
-    b = float(case['cfg'][2])
-    return {'f0': st.unpack('<Q', st.pack('<d', float(rnd.choice([0, 1, -1, 999, 1000, -1000, 12345, 99999, 100000, 123456, 999999]) % int(b))))[0]}
+    b = float(case['cfg'][2]); c = float(case['cfg'].get(3, '0'))
+    return {'f0': st.unpack('<Q', st.pack('<d', c + float(rnd.choice([0, 1, -1, 999, 1000, -1000, 12345, 99999, 100000, 123456, 999999]) % int(b))))[0]}
 
 def plan(tier, rnd, units):
     B = '100000' if tier == 'quick' else '10000000'
     settings = [('_', 6), (',', 4), ('none', 6)] + ([('_', 1), ('_', 12), (',', 6), ('_', 4)] if tier == 'thorough' else [])
     cases = [{'id': 'sep%s-thr%d' % (s if s != ',' else 'comma', t), 'label': 'separator %s, threshold %d, |x| < %s' % (s, t, B), 'cfg': {0: s, 1: str(t), 2: B}} for s, t in settings]
+    # windows |x - c| < W around the boundaries the property names (powers of ten, 2^31, 2^32, 2^53) and seeded centres
+    W = '20000' if tier == 'quick' else '200000'
+    centres = [('none', 6, 2 ** 31), ('none', 6, -2 ** 31), ('none', 6, 2 ** 32), ('none', 6, 2 ** 53 - 20000), ('_', 6, 10 ** 6), ('_', 6, 10 ** 9), (',', 4, 10 ** 12), ('_', 6, -10 ** 15)]
+    centres += [(rnd.choice(['none', '_', ',']), rnd.choice([4, 6]), rnd.choice([1, -1]) * rnd.randrange(10 ** 5, 2 ** 53 - 10 ** 6)) for _ in range(2 if tier == 'quick' else 12)]
+    if tier == 'thorough':
+        centres += [(s_, t_, sg * 10 ** k) for k in range(6, 16) for s_, t_ in [('none', 6), ('_', 6)] for sg in (1, -1)]
+    for s_, t_, c in centres:
+        cases.append({'id': 'sep%s-thr%d-c%d' % (s_ if s_ != ',' else 'comma', t_, c), 'label': 'separator %s, threshold %d, |x - %d| < %s' % (s_, t_, c, W), 'cfg': {0: s_, 1: str(t_), 2: W, 3: str(c)}})
     to = 5000 if tier == 'quick' else 60000
     return [{'entry': 'h_c14_integer', 'cases': cases, 'opts': {'mode': 'replay', 'max_paths': 5000, 'instr_budget': 50_000_000, 'query_timeout_ms': to},
              'expect_covers': ['c14-formatted'], 'selftest_inputs': _inputs}]
